@@ -7,10 +7,9 @@
  "annotate": ["netbuf/netbuf_write.c"],
  "defines": ["VERIF_HALLOC", "NW_ZERO_CASE"],
  "models": ["models/net_events.c", "models/net_netapi.c", "models/net_os.c"],
- "cbmc": ["--malloc-may-fail", "--malloc-fail-null"],
- "unwind": 24,
+ "cbmc": ["--malloc-may-fail", "--malloc-fail-null", "--unwindset", "poke.0:1,poke_wrapped_for_contract_checking.0:1,netbuf_write_consume_wrapped_for_contract_checking.0:4,netbuf_write_consume.0:4"],
  "timeout": 300,
- "assumptions": ["the zero-length case of nw_write: netbuf_write_write(W, buf, 0) with an empty queue", "this group reports the zero-length-write defect on the unmodified tree (MODEL-REQUIRES network_write: buflen != 0)", "--unwind 24 only bounds the constant-size loops of the DFCC library and the else-branch loop of STAILQ_REMOVE, which is unreachable here (the removed buffer is always the head): the unwinding assertions are discharged, so nothing is cut off (not a bounded stand-in)"]
+ "assumptions": ["the zero-length case of nw_write: netbuf_write_write(W, buf, 0) with an empty queue", "this group reports the zero-length-write defect on the unmodified tree (MODEL-REQUIRES network_write: buflen != 0)", "--unwindset poke.0:1 only bounds the else-branch loop of STAILQ_REMOVE in poke, which is unreachable (the removed buffer is always the head): the unwinding assertions are discharged, so nothing is cut off (not a bounded stand-in)"]
 }
 */
 #include <stdlib.h>
@@ -18,43 +17,21 @@
 #include "netbuf/netbuf_write.c"
 #include "c07w.h"
 
-/* Writing buflen bytes through any well-formed writer. */
+/* netbuf_write_write(W, buf, 0) on a writer with an empty queue (idle or with a write in flight). */
 void
 h_nw_write_zero(void)
 {
 	NW_MK(W, 1);
-	IN(size_t, buflen);
 	int rc;
 	unsigned n0 = g_nwr.nstart;
-	struct writebuf * first0 = W->buffers.stqh_first;
-	struct writebuf ** last0 = W->buffers.stqh_last;
-	size_t room0 = (L != NULL) ? L->buflen - L->datalen : 0;
-	size_t d0 = (L != NULL) ? L->datalen : 0;
-	uint8_t b = 0;
+	uint8_t src[1];
 
-	__CPROVER_assume(buflen <= NW_MAXOBJ);
-	__CPROVER_assume(buflen == 0 && qn == 0);
-	IN_BYTES(src, buflen, NW_MAXOBJ);
-	if (gi < buflen)
-		b = src[gi];
+	__CPROVER_assume(qn == 0);
 
-	rc = netbuf_write_write(W, src, buflen);
+	rc = netbuf_write_write(W, src, 0);
 
-	if (wfailed) {
-		__CPROVER_assert(rc == 0 && W->buffers.stqh_first == first0 && W->buffers.stqh_last == last0 && g_nwr.nstart == n0 &&
-		    (L == NULL || L->datalen == d0), "after a failure writes are discarded silently");
-	} else if (rc == 0) {
-		/* the tail of the stream: the last queued buffer, or the in-flight one if the queue was empty and idle */
-		struct writebuf * T = STAILQ_EMPTY(&W->buffers) ? W->curr : STAILQ_LAST(&W->buffers, writebuf, entries);
-		__CPROVER_assert(T != NULL && T->datalen >= buflen, "the data is at the tail of the stream");
-		__CPROVER_assert(!(qn > 0 && room0 >= buflen) || (T == L && T->datalen == d0 + buflen), "coalesced behind the earlier data of the last buffer");
-		__CPROVER_assert((qn > 0 && room0 >= buflen) || (T != L && T->datalen == buflen && (L == NULL || L->datalen == d0)),
-		    "or alone in a fresh buffer queued behind everything else");
-		__CPROVER_assert(!(gi < buflen) || T->buf[T->datalen - buflen + gi] == b, "the bytes are the caller's, in order");
-		__CPROVER_assert(g_nwr.nstart == n0 || (g_nwr.nstart == n0 + 1 && !inflight), "at most one write in flight");
-		__CPROVER_assert(inflight || W->curr == (qn > 0 ? A : T), "an idle writer starts sending the oldest buffer");
-	}
-
+	__CPROVER_assert(g_nwr.nstart == n0, "a zero-length write sends nothing");
+	__CPROVER_assert(rc == -1 || W->reserved == 0, "nothing stays reserved");
 	VCOVER(rc == 0 && !wfailed && !inflight);
 	VCOVER(rc == 0 && !wfailed && inflight);
 	VCOVER(rc == 0 && wfailed);
